@@ -321,7 +321,10 @@ func runC14(e *env) error {
 		}
 	}
 	e.rep.Exhaustive = false
-	return runConsumers(e)
+	if err := runConsumers(e); err != nil {
+		return err
+	}
+	return runExtList(e)
 }
 
 func sortCtx(a *sx.Node) {
